@@ -688,6 +688,9 @@ func TestC11(t *testing.T) {
 			st.Violate(Violation{What: fmt.Sprintf("correspondence with the stream model broken on case %s\n    events: %s\n    model selects: %s\n    impl sent:     %s", cs.Name, strings.Join(r.evs, ";"), strings.Join(sel, ";"), strings.Join(r.batches, ";")), Replay: p, FoundInput: false, Sig: "correspondence"})
 		}
 	}
+	if os.Getenv("VERIF_REPLAY") == "" {
+		c11Schedules(t, st)
+	}
 	st.Set("evaluations", runs)
 	st.Set("messages_sent", sent)
 	st.Set("fetches_with_candidates", queries)
